@@ -62,12 +62,17 @@ def conc_shard(spec, res):
                     'concurrent [%s] %s' % (wit['transaction_order'],
                                             wit['scenario']), wit,
                     synced=not wit['scenario'].startswith('restart:'))
-        # (referential integrity of associations is C08's business; the race
-        # DELETE /traits/X vs PUT .../traits [X] leaves a dangling row only
-        # because SQLite does not enforce the foreign key that MySQL and
-        # PostgreSQL enforce - engine-specific, counted, not judged)
+        # (a trait deleted while still / again associated: with enforced
+        # foreign keys the statement fails, without them the row dangles -
+        # a defect either way, D38 / D39)
         if any(k == 'rptrait-trait' for k, _ in monitors.c08_state(d)):
             res.count('fk_unenforced_dangling_trait_association_seen')
+            res.violation(
+                'C19|dangling-trait-association|concurrent|%s'
+                % wit['scenario'],
+                'committed state after step %s of [%s]: an association '
+                'refers to a trait that does not exist' % (
+                    wit['after_step'], wit['transaction_order']), wit)
 
     def at_end(d0, final, reqs, results, wit):
         if wit['scenario'].startswith('restart:') and all(
